@@ -269,9 +269,31 @@ def condition_scenario(ctx, nops, flowvar):
                         else:
                             yield from cond.wait()
                         w['resumed'] += 1
+                        # who was resumed?  the outermost routine of the current chain must be the one playing on the clock
+                        tt = main.current_tt
+                        while tt.parent is not None and tt.parent is not main.main_tt:
+                            tt = tt.parent
+                        w['under'] = tt
                         yield 1
                     return body
                 body = mk_body(w)
+                # the wait may be reached several routines deep (the routine playing on the clock embeds a routine
+                # that embeds the one that waits): it is still the playing routine that must be parked and resumed
+                depth = [1, 3][ctx.choose(f'depth{i}', 2)]
+                hist[-1].append(depth)
+
+                def wrap(inner_fn):
+                    def outer_body():
+                        r = stm.Routine(inner_fn)
+                        while True:
+                            try:
+                                v = r.next()
+                            except stm.StopStream:
+                                return
+                            yield v
+                    return outer_body
+                for _ in range(depth - 1):
+                    body = wrap(body)
                 w['routine'] = stm.Routine(body)
                 w['routine'].play(clk.SystemClock)
                 w['state'] = 'scheduled'
@@ -317,6 +339,10 @@ def condition_scenario(ctx, nops, flowvar):
                                     f'{w["state"]}, history {hist})', None, data('resumed'))
                 if flowvar and w['resumed'] and w['got'] != 42:
                     raise Violation('flow variable delivered a wrong value', None, data('value'))
+                if w['resumed'] and w.get('under') is not w['routine']:
+                    raise Violation(f'waiter {k} (waiting {hist} deep) was resumed through {w.get("under")!r}, not through '
+                                    f'the routine that is playing on the clock: that routine stays parked for ever', None,
+                                    data('wrong-thread'))
             ctx.obligations += 1
             ctx.discharged += 1
         # drain: run the scheduler; signalled waiters resume, waiting ones stay
